@@ -74,11 +74,16 @@ def post_sv_to_csr(array, result):
     n = items[0].nvar
     if result.shape != (len(items), n):
         return False
-    dense = np.zeros((len(items), n))
-    for i, it in enumerate(items):
-        for j, val in zip(it.index, it.value):
-            dense[i, j] += val
-    return np.allclose(result.toarray(), dense, atol=1e-12)
+    import scipy.sparse as sps
+    lens = [len(it.index) for it in items]
+    rows = np.repeat(np.arange(len(items)), lens)
+    cols = np.concatenate([np.asarray(it.index, dtype=int).reshape(-1) for it in items]) \
+        if items else np.zeros(0, int)
+    vals = np.concatenate([np.asarray(it.value, dtype=float).reshape(-1) for it in items]) \
+        if items else np.zeros(0)
+    want = sps.csr_matrix((vals, (rows, cols)), shape=(len(items), n))   # duplicates are summed
+    diff = sps.csr_matrix(result) - want
+    return diff.nnz == 0 or float(abs(diff).max()) <= 1e-12
 
 
 def post_event_dict(event_set, result):
